@@ -129,6 +129,10 @@ func classify(f *ast.File, fd *ast.FuncDecl, recv ast.Expr) string {
 							return "field"
 						}
 					}
+					// an embedded backend.WritableFile is a field of that type too, named WritableFile
+					if len(fl.Names) == 0 && r.Sel.Name == "WritableFile" && isWritableType(fl.Type) {
+						return "field"
+					}
 				}
 			}
 		}
